@@ -115,3 +115,38 @@ Proof. intros Hl a n b E Hd. pose proof (value_lt_pow n Hd) as V.
   assert (length n <= 15)%nat by (apply (f_equal (@length N)) in E; rewrite !app_length in E; lia).
   eapply N.lt_le_trans; [exact V|]. change 1000000000000000 with (10 ^ 15).
   apply N.pow_le_mono_r; lia. Qed.
+
+(* ---- non-vacuity examples (proved here so that the property file stays quick to check) ---- *)
+Definition ex_h (n : bytes) : bytes := [102;111;111] ++ n ++ [45;105;98].
+Definition ex_hosts : list bytes := [ex_h [48;49]; ex_h [55]; ex_h [48;51]; ex_h [48;50]].
+
+Lemma ex_name_ok h : h <> [] -> forallb name_char h = true -> (length h <=? 15)%nat = true -> host_name_ok h.
+Proof. intros A B C. apply Nat.leb_le in C. repeat split; auto; [lia|apply short_digit_runs; auto]. Qed.
+
+Lemma ex_header :
+  host_set_ok ex_hosts /\
+  compress [] ex_hosts = [[102;111;111;91;48;49;45;48;51;44;55;93;45;105;98]] /\
+  targets (join 44 (compress [] ex_hosts)) = Ok [ex_h [48;49]; ex_h [48;50]; ex_h [48;51]; ex_h [55]].
+Proof. split; [|split; vm_compute; reflexivity]. split; [|split].
+  - unfold ex_hosts, ex_h. repeat constructor; cbn [In app]; intuition discriminate.
+  - unfold ex_hosts. repeat constructor; apply ex_name_ok; try discriminate; reflexivity.
+  - vm_compute. discriminate. Qed.
+
+Lemma ex_twins :
+  let h n := 110 :: n in
+  compress [] (sort_str [h [57]; h [48;57]; h [49;48]; h [48;49;48]]) =
+    [[110;91;48;57;44;57;45;49;48;44;48;49;48;93]] /\
+  targets [110;91;48;57;44;57;45;49;48;44;48;49;48;93] = Ok [h [48;57]; h [57]; h [49;48]; h [48;49;48]].
+Proof. split; vm_compute; reflexivity. Qed.
+
+Definition ex_items : list item :=
+  [Lab (mkll [] [97;49] [] true [120;58;121]); Lab (mkll [32] [98;50] [32] true []); Junk [122];
+   Lab (mkll [] [97;49] [] false [119])].
+Definition ex_last : lline := mkll [] [98;50] [] true [118].
+Lemma ex_regroup :
+  Forall item_ok ex_items /\ lline_ok ex_last /\
+  lines_of [97;49] (all_items ex_items (Some ex_last)) = [[120;58;121;10]; [119;10]] /\
+  lines_of [98;50] (all_items ex_items (Some ex_last)) = [[10]; [118;10]] /\
+  map b_body (blocks_normal [] (stream ex_items (Some ex_last))) = [[[120;58;121;10]; [119;10]]; [[10]; [118;10]]].
+Proof. repeat split; try (vm_compute; reflexivity);
+  repeat constructor; cbn; try discriminate; try tauto; intuition discriminate. Qed.
